@@ -249,6 +249,21 @@ def _check_choi_builtin(ctx, name, j_lib, formula, d, pcls, cptp=None, unital=No
             ctx.check(mon, bool(v) == cp, sig=(name, "cp", pcls), mech=f"{name}:cp-verdict", detail=detail)
 
 
+def _operand(rng, d, r):
+    """Input operator of a built-in channel: density matrices, but also generic non-Hermitian operators and matrix units (all input operators)."""
+    k = r % 4
+    if k == 0:
+        return gen.density(rng, d)
+    if k == 1:
+        return gen.rc(rng, d, d)
+    if k == 2:
+        m = np.zeros((d, d), dtype=complex)
+        i, j = int(rng.integers(0, d)), int(rng.integers(0, d))
+        m[i, j] = 1
+        return m
+    return gen.density(rng, d, 1, False).real
+
+
 def _b_depolarizing(ctx, spec, rng):
     from toqito.channels import depolarizing
 
@@ -324,7 +339,7 @@ def _b_amplitude_damping(ctx, spec, rng):
         elif g == 0 or p == 0.5:
             unital = True
         _kraus_builtin(ctx, "amplitude_damping", kraus, formula, ("g", round(g, 3), "p", round(p, 3)), det, unital)
-    rho = gen.density(rng, 2)
+    rho = _operand(rng, 2, spec[2] if isinstance(spec[2], int) else int(rng.integers(0, 4)))
     y = ctx.call(amplitude_damping, rho, g, p)
     if y is not FAILED:
         ctx.check("builtin:amplitude_damping", None, dev=_rel(y, formula(rho)), tol=1e-10, sig=("amplitude_damping", "direct"), mech="amplitude_damping:direct-vs-formula", detail=det)
@@ -350,7 +365,7 @@ def _b_phase_damping(ctx, spec, rng):
     kraus = ctx.call(phase_damping, None, g)
     if kraus is not FAILED:
         _kraus_builtin(ctx, "phase_damping", kraus, formula, ("g", round(g, 3)), det, True)
-    rho = gen.density(rng, 2)
+    rho = _operand(rng, 2, spec[2] if isinstance(spec[2], int) else int(rng.integers(0, 4)))
     y = ctx.call(phase_damping, rho, g)
     if y is not FAILED:
         ctx.check("builtin:phase_damping", None, dev=_rel(y, formula(rho)), tol=1e-10, sig=("phase_damping", "direct"), mech="phase_damping:direct-vs-formula", detail=det)
@@ -374,7 +389,7 @@ def _b_bitflip(ctx, spec, rng):
     kraus = ctx.call(bitflip, None, p)
     if kraus is not FAILED:
         _kraus_builtin(ctx, "bitflip", kraus, formula, ("p", round(p, 3)), det, True)
-    rho = gen.density(rng, 2)
+    rho = _operand(rng, 2, spec[2] if isinstance(spec[2], int) else int(rng.integers(0, 4)))
     y = ctx.call(bitflip, rho, p)
     if y is not FAILED:
         ctx.check("builtin:bitflip", None, dev=_rel(y, formula(rho)), tol=1e-10, sig=("bitflip", "direct"), mech="bitflip:direct-vs-formula", detail=det)
